@@ -36,9 +36,9 @@
 //
 // Output line per op (identical in format to the Lean model's, `gsm-panics`):
 //
-//	survived=<0|1> fired=<0|1> err=<none|panic|failed|hang|other> cb=<k> val=<0|1|-> sibling=<0|1> late=<0|1> leak=<0|1>
+//	survived=<0|1> fired=<0|1> err=<none|panic|failed|hang|other> cb=<k> val=<0|1|-> sibling=<0|1> late=<0|1> leak=<0|1> res=tasks:<k>,table:<k>
 //
-// survived: the child process exited normally (a crashed child prints `survived=0 fired=1 err=- cb=- val=- sibling=- late=- leak=-`);
+// survived: the child process exited normally (a crashed child prints `survived=0 fired=1 err=- cb=- val=- sibling=- late=- leak=- res=-`);
 // fired: the injected function was actually reached and panicked; err: what the requesting client
 // got on the target request's error channel (panic = a panics.RecoveredPanicErr carrying the
 // injected object, failed = the responder terminated the request with a failure status);
@@ -49,7 +49,9 @@
 // request submitted AFTER the target terminated (same peers, same link system) completed fully;
 // leak: once everything has drained, some resource is still held on either node - Stats() shows an
 // active or pending task or allocated response memory, or PeerState() still lists a request /
-// reports an inconsistency (Diagnostics).
+// reports an inconsistency (Diagnostics); res: what is left after the drain, counted over both nodes -
+// task-queue entries (active + pending) and request / response table entries (allocated response
+// memory is reported in the detail and by the oracle, the model does not have it).
 //
 // The oracle is written from the property sentence, not from the model: whenever the injected
 // panic fired - whatever kind of value it carried - the process must survive, the target request
@@ -423,7 +425,7 @@ func runOne(o op) result {
 	tail = strings.ReplaceAll(tail, "\n", " | ")
 	if err != nil || resLine == "" {
 		// the child died.  A Go panic exits with status 2 and prints "panic: <obj>" on stderr.
-		res.line = fmt.Sprintf("survived=0 fired=%d err=- cb=- val=- sibling=- late=- leak=-", b2i(fired))
+		res.line = fmt.Sprintf("survived=0 fired=%d err=- cb=- val=- sibling=- late=- leak=- res=-", b2i(fired))
 		switch {
 		case ctx.Err() != nil:
 			res.fails = append(res.fails, [2]string{"harness-error", "child timed out: " + o.String()})
@@ -444,7 +446,7 @@ func runOne(o op) result {
 			f[kv[:i]] = kv[i+1:]
 		}
 	}
-	res.line = fmt.Sprintf("survived=1 fired=%s err=%s cb=%s val=%s sibling=%s late=%s leak=%s", f["fired"], f["err"], f["cb"], f["val"], f["sibling"], f["late"], f["leak"])
+	res.line = fmt.Sprintf("survived=1 fired=%s err=%s cb=%s val=%s sibling=%s late=%s leak=%s res=%s", f["fired"], f["err"], f["cb"], f["val"], f["sibling"], f["late"], f["leak"], f["res"])
 	detail := resLine
 	// ---- oracle, from the property sentence
 	if f["fired"] == "1" {
@@ -972,6 +974,24 @@ func heldResource(requestor, responder graphsync.GraphExchange, reqPeer, respPee
 	return ""
 }
 
+// leftOver counts, over both nodes, the task-queue entries, the request / response table entries and
+// the allocated response memory that remain.
+func leftOver(requestor, responder graphsync.GraphExchange, reqPeer, respPeer peer.ID) (tasks, table, mem uint64) {
+	rs, ps := requestor.Stats(), responder.Stats()
+	tasks = rs.OutgoingRequests.Active + rs.OutgoingRequests.Pending + ps.IncomingRequests.Active + ps.IncomingRequests.Pending
+	mem = ps.OutgoingResponses.TotalAllocatedAllPeers + ps.OutgoingResponses.TotalPendingAllocations + rs.OutgoingResponses.TotalAllocatedAllPeers
+	type ps_ interface {
+		PeerState(p peer.ID) gsimpl.PeerState
+	}
+	if g, ok := requestor.(ps_); ok {
+		table += uint64(len(g.PeerState(respPeer).OutgoingState.RequestStates))
+	}
+	if g, ok := responder.(ps_); ok {
+		table += uint64(len(g.PeerState(reqPeer).IncomingState.RequestStates))
+	}
+	return
+}
+
 func child(o op) (string, error) {
 	ctx, cancel := context.WithCancel(context.Background())
 	defer cancel()
@@ -1197,7 +1217,8 @@ func child(o op) (string, error) {
 		}
 		time.Sleep(10 * time.Millisecond)
 	}
-	line := fmt.Sprintf("fired=%d err=%s cb=%d val=%s sibling=%d late=%d leak=%d", b2i(fired), errKind, match+stray, valField, b2i(s1 && s2), b2i(s2), b2i(leakWhat != ""))
+	nTasks, nTable, nMem := leftOver(requestor, responder, h1.ID(), h2.ID())
+	line := fmt.Sprintf("fired=%d err=%s cb=%d val=%s sibling=%d late=%d leak=%d res=tasks:%d,table:%d mem=%d", b2i(fired), errKind, match+stray, valField, b2i(s1 && s2), b2i(s2), b2i(leakWhat != ""), nTasks, nTable, nMem)
 	if leakWhat != "" {
 		line += " leakwhat=" + leakWhat
 	}
